@@ -1,7 +1,7 @@
 \* targets: 2 slots, 5 filters (exact list, comma list, substring, regex, '*'), twins; no tag filters
-CONSTANTS NT = 2  TagVals = {1}  MaxRules = 2  MaxTag = 0  MaxKnown = 2
+CONSTANTS NT = 2  TagVals = {1}  MaxRules = 2  MaxTag = 0  MaxKnown = 3
 CONSTANTS Sites <- U1Sites  Rules <- U1Rules  TRules <- Empty  Bugs <- NoBugs
-SPECIFICATION Spec
+SPECIFICATION SpecTargets
 INVARIANT TypeOK
 INVARIANT DeliveryIffSelected
 INVARIANT Routing
